@@ -332,8 +332,32 @@ GUARDED = [
     ('ExtractTrans', 'validate'),
 ]
 
+def check_option_leaks(idx, run):
+    """A region transformation never writes the name it chose into the
+    dictionary its caller passed as options: get_unique_region_name takes a
+    'region_name' entry as the user's request, so a script that reuses one
+    dictionary would give every later region the first region's name."""
+    import ast
+    from rules.common_parallel import option_leaks
+    leaks, returning = option_leaks(
+        idx, "psyclone.psyir.transformations.psy_data_trans.PSyDataTrans")
+    run.floor("PSyDataTrans methods taking options", len(leaks), 10)
+    run.extra["methods_returning_the_callers_options"] = sorted(returning)
+    for cls, func, stores in leaks:
+        run.check("C28.R5", not stores, f"{cls.name}.{func.name}",
+                  "the caller's options dictionary is not written",
+                  f"{cls.name}.{func.name} writes into the dictionary the "
+                  f"caller passed as options ("
+                  f"{ast.unparse(stores[0])[:60] if stores else ''}): an "
+                  f"automatically chosen region_name left there is taken as "
+                  f"the user's request for the next region, so two regions "
+                  f"share one name", loc(cls.module, stores[0] if stores
+                                         else func))
+
+
 def check(idx, run):
     run.explanation = __doc__
+    check_option_leaks(idx, run)
     from sa.guards import check_guards
     check_guards(idx, run, "C28.R4", GUARDED)
     check_no_escape(idx, run)
